@@ -19,6 +19,8 @@ import (
 
 	"github.com/teleport-network/teleport/syscontracts"
 	agentcontract "github.com/teleport-network/teleport/syscontracts/xibc_agent"
+	bscclient "github.com/teleport-network/teleport/x/xibc/clients/light-clients/bsc/types"
+	ethclient "github.com/teleport-network/teleport/x/xibc/clients/light-clients/eth/types"
 	xibctmtypes "github.com/teleport-network/teleport/x/xibc/clients/light-clients/tendermint/types"
 	tsstypes "github.com/teleport-network/teleport/x/xibc/clients/tss-client/types"
 	clienttypes "github.com/teleport-network/teleport/x/xibc/core/client/types"
@@ -345,6 +347,29 @@ func (e *Env) verifyOracle(c *Chain, env int, kind int, pktBz, ackBz, proof []by
 			low = mp.VerifyMembership(commitmenttypes.GetSDKSpecs(), cons.GetRoot(), mpath, val) == nil
 		})
 	}
+	evmLow := func(latest exported.Height, delay uint64, contract []byte) {
+		low = false
+		hlib.Catch(func() {
+			cons, found := ck.GetClientConsensusState(cctx, name, height)
+			if !found {
+				return
+			}
+			if latest.LT(height) || latest.GetRevisionNumber() != height.GetRevisionNumber() {
+				return
+			}
+			// the stated height must be buried under the client's block delay
+			if latest.GetRevisionHeight()-height.GetRevisionHeight() < delay {
+				return
+			}
+			low = ethLow(cons.GetRoot(), contract, prf, kind == 1, p.SrcChain, p.DstChain, p.Sequence, val)
+		})
+	}
+	if ec, isEth := cs.(*ethclient.ClientState); isEth {
+		evmLow(ec.GetLatestHeight(), ec.BlockDelay, ec.ContractAddress)
+	}
+	if bc, isBsc := cs.(*bscclient.ClientState); isBsc {
+		evmLow(bc.GetLatestHeight(), uint64(len(bc.Validators)/2+1), bc.ContractAddress)
+	}
 	e.orc.Verify = append(e.orc.Verify, VerifyE{
 		Env: env, Client: hs(name), Kind: kind, H: heightJ(height), Proof: hx(prf),
 		Src: hs(p.SrcChain), Dst: hs(p.DstChain), Seq: u64(p.Sequence), Val: hx(val), Ok: ok, Low: low,
@@ -409,6 +434,16 @@ func (e *Env) sendsOf(c *Chain, pk [][]byte) []SendJ {
 	return out
 }
 
+// rawOf: the emitted bytes of the PacketSent logs (hex), with their sha256 tabulated.
+func (e *Env) rawOf(pk [][]byte) []string {
+	out := []string{}
+	for _, bz := range pk {
+		e.orc.AddSha(bz)
+		out = append(out, hx(bz))
+	}
+	return out
+}
+
 // rawAck unpacks ack bytes with the raw go-ethereum ABI (independent of Acknowledgement.ABIDecode).
 func rawAck(bz []byte) (code uint64, result []byte, message, relayer string, fee uint64, ok bool) {
 	hlib.Catch(func() {
@@ -442,6 +477,10 @@ func (e *Env) dstName(c *Chain, d int) string {
 		return e.chains[d].name
 	case d == -2:
 		return fmt.Sprintf("tss-%d", c.idx)
+	case d == -3:
+		return ethName(c.idx)
+	case d == -4:
+		return bscName(c.idx)
 	default:
 		return unknownChain
 	}
@@ -508,7 +547,7 @@ func (e *Env) opSend(op Op) {
 	}
 	data, err := endpointABI.Pack("crossChainCall", ccd, fee)
 	must(err)
-	act := &ActSend{T: "send", Sends: []SendJ{}}
+	act := &ActSend{T: "send", Sends: []SendJ{}, Raw: []string{}}
 	class := e.record(c, act, func() (int, string) {
 		rsp, err := e.evmTx(c, endpAddr, value, data)
 		if err != nil {
@@ -527,6 +566,7 @@ func (e *Env) opSend(op Op) {
 			return 1, rsp.VmError
 		}
 		act.Sends = e.sendsOf(c, pk)
+		act.Raw = e.rawOf(pk)
 		return 0, ""
 	})
 	e.stat(fmt.Sprintf("send.%s.dst%s.class%d", op.Variant, dstKind(op.Dst), class))
@@ -539,6 +579,10 @@ func dstKind(d int) string {
 		return "peer"
 	case d == -2:
 		return "tss"
+	case d == -3:
+		return "eth"
+	case d == -4:
+		return "bsc"
 	default:
 		return "unknown"
 	}
@@ -564,6 +608,83 @@ func packetSentLogs(rsp *evmtypes.MsgEthereumTxResponse) [][]byte {
 		}
 	}
 	return out
+}
+
+// ---------------------------------------------------------------------------------------------
+// op: send_multi (ONE EVM transaction of the sender's multicall contract performing several crossChainCalls: its
+// receipt carries one PacketSent log per leg, all handed to SendPacket by ONE PostTxProcessing call)
+
+func (e *Env) opSendMulti(op Op) {
+	c := e.chains[op.Chain]
+	if c.M == zeroAddr || len(op.Legs) == 0 {
+		e.stat("send_multi.skipped")
+		return
+	}
+	e.prepare(c)
+	var calls []byte
+	total := new(big.Int)
+	tag := ""
+	for _, l := range op.Legs {
+		dst := e.dstName(c, l.Dst)
+		amt := new(big.Int).SetUint64(l.Amount)
+		ccd := packettypes.CrossChainData{
+			DstChain:        dst,
+			TokenAddress:    zeroAddr,
+			Receiver:        hexLower(c.tc.SenderAddress),
+			Amount:          amt,
+			ContractAddress: "",
+			CallData:        []byte{},
+			CallbackAddress: zeroAddr,
+			FeeOption:       0,
+		}
+		fee := packettypes.Fee{TokenAddress: zeroAddr, Amount: big.NewInt(0)}
+		value := amt
+		switch l.Variant {
+		case "erc20":
+			if c.N != zeroAddr {
+				ccd.TokenAddress = c.N
+				fee.TokenAddress = c.N
+				value = big.NewInt(0)
+			}
+		case "call":
+			target := c.M
+			if l.Dst >= 0 && l.Dst < nChains && e.chains[l.Dst].M != zeroAddr {
+				target = e.chains[l.Dst].M
+			}
+			// the destination executes an empty forwarding call on the multicall contract there (succeeds)
+			ccd.ContractAddress = hexLower(target)
+			ccd.CallData = []byte{0x00}
+		}
+		data, err := endpointABI.Pack("crossChainCall", ccd, fee)
+		must(err)
+		calls = append(calls, mcRecord(endpAddr, value, data)...)
+		total.Add(total, value)
+		tag += "." + dstKind(l.Dst)
+	}
+	act := &ActSend{T: "send", Sends: []SendJ{}, Raw: []string{}}
+	class := e.record(c, act, func() (int, string) {
+		rsp, err := e.evmTx(c, c.M, total, calls)
+		if err != nil {
+			act.Fail = true
+			return 1, errText(err)
+		}
+		pk := packetSentLogs(rsp)
+		hookFailed := rsp.VmError == evmtypes.ErrPostTxProcessing.Error()
+		act.Fail = rsp.VmError != "" && !hookFailed
+		if rsp.VmError != "" {
+			for _, bz := range pk {
+				p, _ := e.orc.AddDecode(bz)
+				act.Sends = append(act.Sends, SendJ{packetJ(&p), true})
+			}
+			return 1, rsp.VmError
+		}
+		act.Sends = e.sendsOf(c, pk)
+		act.Raw = e.rawOf(pk)
+		e.stat(fmt.Sprintf("send_multi.logs%d", len(pk)))
+		return 0, ""
+	})
+	e.stat(fmt.Sprintf("send_multi.legs%d%s.class%d", len(op.Legs), tag, class))
+	e.finish(c, op.Commit)
 }
 
 // ---------------------------------------------------------------------------------------------
@@ -601,7 +722,7 @@ func (e *Env) opSendRaw(op Op, opIdx int) {
 		p.CallData = []byte(fmt.Sprintf("raw-junk-call-data-%d", opIdx))
 	}
 	e.orc.AddPack(&p)
-	act := &ActSend{T: "send", Sends: []SendJ{{packetJ(&p), true}}}
+	act := &ActSend{T: "send", Sends: []SendJ{{packetJ(&p), true}}, Raw: []string{}}
 	class := e.record(c, act, func() (int, string) {
 		cctx, write := c.ctx().CacheContext()
 		c.dirty = true
@@ -724,6 +845,10 @@ func (e *Env) proofFor(c, s *Chain, key, other []byte, alters []string, fresh bo
 	if has(alters, "height+1") {
 		h.RevisionHeight++
 	}
+	if has(alters, "height0") {
+		// the zero height: refused by the message's ValidateBasic before any handler runs
+		h = clienttypes.Height{}
+	}
 	return proof, h
 }
 
@@ -794,6 +919,7 @@ func (e *Env) runRecv(c *Chain, rel int, bz, proof []byte, height clienttypes.He
 	signer := e.accs[rel].String()
 	msg := &packettypes.MsgRecvPacket{Packet: bz, ProofCommitment: proof, ProofHeight: height, Signer: signer}
 	dec, decErr := e.orc.AddDecode(bz)
+	e.orc.AddBech32(signer)
 	e.verifyOracle(c, e.envN+1, 0, bz, nil, proof, height, signer)
 	act := &ActRecv{T: "recv", Packet: hx(bz), Proof: hx(proof), Height: heightJ(height), Signer: hs(signer), Cb: emptyCb()}
 	var observedRet *[3]interface{}
@@ -901,8 +1027,13 @@ func (e *Env) opRecvTss(op Op, opIdx int) {
 		p.TransferData = []byte(fmt.Sprintf("junk-transfer-data-%d", opIdx))
 	}
 	bz := e.orc.AddPack(&p)
-	class := e.runRecv(c, op.Relayer, bz, []byte{}, clienttypes.NewHeight(0, 1))
-	e.stat(fmt.Sprintf("recv_tss.%s.dstself_%v.src_%s.rel%d.class%d", op.Variant, op.DstSelf, op.Src, op.Relayer, class))
+	h := clienttypes.NewHeight(0, 1)
+	if op.Mal == "height0" {
+		// the TSS client ignores the height; MsgRecvPacket.ValidateBasic does not
+		h = clienttypes.Height{}
+	}
+	class := e.runRecv(c, op.Relayer, bz, []byte{}, h)
+	e.stat(fmt.Sprintf("recv_tss.%s%s.dstself_%v.src_%s.rel%d.class%d", op.Variant, op.Mal, op.DstSelf, op.Src, op.Relayer, class))
 	e.finish(c, op.Commit)
 }
 
@@ -952,15 +1083,31 @@ func (e *Env) opAck(op Op, opIdx int) {
 	other := host.PacketCommitmentKey(orig.SrcChain, orig.DstChain, orig.Sequence)
 	proof, height := e.proofFor(c, w, key, other, op.Alter, op.FreshProof)
 	e.prepare(c)
-	signer := e.accs[op.Relayer].String()
+	class := e.runAck(c, op.Relayer, pbz, abz, proof, height)
+	tag := "plain"
+	if len(op.Alter) > 0 {
+		tag = "alter_" + strings.Join(op.Alter, "+")
+	}
+	e.stat(fmt.Sprintf("ack.%s.rel%d.class%d", tag, op.Relayer, class))
+	if c.name != orig.SrcChain {
+		e.stat(fmt.Sprintf("ack.on_other_chain.class%d", class))
+	}
+	e.finish(c, op.Commit)
+}
+
+// runAck delivers MsgAcknowledgement{pbz, abz, proof, height} signed by relayer rel to c as one step.
+func (e *Env) runAck(c *Chain, rel int, pbz, abz, proof []byte, height clienttypes.Height) int {
+	signer := e.accs[rel].String()
 	msg := &packettypes.MsgAcknowledgement{Packet: pbz, Acknowledgement: abz, ProofAcked: proof, ProofHeight: height, Signer: signer}
 	e.orc.AddDecode(pbz)
 	e.orc.AddDecodeAck(abz)
+	e.orc.AddBech32(signer)
 	e.verifyOracle(c, e.envN+1, 1, pbz, abz, proof, height, signer)
 	act := &ActAck{T: "ack", Packet: hx(pbz), Ack: hx(abz), Proof: hx(proof), Height: heightJ(height), Signer: hs(signer),
 		Cbs: [3]CbJ{emptyCb(), emptyCb(), emptyCb()}}
+	dry := e.ackCallbacksDryRun(c, pbz, abz)
 	class := e.record(c, act, func() (int, string) {
-		cl, res, err := e.deliver(c, e.keys[op.Relayer], msg)
+		cl, res, err := e.deliver(c, e.keys[rel], msg)
 		if cl != 0 {
 			return cl, errText(err)
 		}
@@ -974,14 +1121,107 @@ func (e *Env) opAck(op Op, opIdx int) {
 		act.Cbs[2].Sends = e.sendsOf(c, evs.sends)
 		return 0, ""
 	})
-	tag := "plain"
-	if len(op.Alter) > 0 {
-		tag = "alter_" + strings.Join(op.Alter, "+")
+	if class != 0 {
+		// which module->contract call fails is an INPUT of the model (the environment's choice); for a rejected
+		// acknowledgement nothing of it is observable in the result, so it is taken from the dry run
+		for i := range dry {
+			act.Cbs[i].Fail = dry[i]
+		}
 	}
-	e.stat(fmt.Sprintf("ack.%s.rel%d.class%d", tag, op.Relayer, class))
-	if c.name != orig.SrcChain {
-		e.stat(fmt.Sprintf("ack.on_other_chain.class%d", class))
+	return class
+}
+
+// ackCallbacksDryRun performs, on a throw-away branch of c's state, the three module->contract calls the message
+// server makes for an acknowledgement of a packet sent from c (setAckStatus, sendPacketFeeToRelayer,
+// OnAcknowledgePacket) and reports which of them is the first to fail.  The calls read and write contract state only,
+// so the outcome is the one the real message would meet.
+func (e *Env) ackCallbacksDryRun(c *Chain, pbz, abz []byte) (fail [3]bool) {
+	p, err := realDecode(pbz)
+	if err != nil || p.SrcChain != c.name {
+		return
 	}
+	var a packettypes.Acknowledgement
+	if a.ABIDecode(abz) != nil {
+		return
+	}
+	hlib.Catch(func() {
+		cctx, _ := c.ctx().CacheContext()
+		pk := c.tc.App.XIBCKeeper.PacketKeeper
+		status := uint8(2)
+		if a.Code == 0 {
+			status = 1
+		}
+		if _, err := pk.CallPacket(cctx, "setAckStatus", p.DstChain, p.Sequence, status); err != nil {
+			fail[0] = true
+			return
+		}
+		relayer, found := c.tc.App.XIBCKeeper.ClientKeeper.GetRelayerAddressOnTeleport(cctx, p.DstChain, a.Relayer)
+		if !found {
+			return
+		}
+		addr, err := sdk.AccAddressFromBech32(relayer)
+		if err != nil {
+			return
+		}
+		if _, err := pk.CallPacket(cctx, "sendPacketFeeToRelayer", p.DstChain, p.Sequence, common.BytesToAddress(addr)); err != nil {
+			fail[1] = true
+			return
+		}
+		if _, err := pk.CallPacket(cctx, "OnAcknowledgePacket", p, a); err != nil {
+			fail[2] = true
+		}
+	})
+	return
+}
+
+// ---------------------------------------------------------------------------------------------
+// op: ack_tss (acknowledgement of a packet sent to the TSS-secured destination tss-<idx>: the TSS client verifies
+// nothing but the signer, so ANY acknowledgement bytes signed by the TSS address pass AcknowledgePacket; this is
+// the only way to reach the message server's own checks: undecodable / all-zero acknowledgement, unknown relayer)
+
+func (e *Env) opAckTss(op Op, opIdx int) {
+	c := e.chains[op.Chain]
+	dst := fmt.Sprintf("tss-%d", c.idx)
+	var cand []poolPkt
+	for _, ent := range e.pktPool {
+		if p, err := realDecode(ent.bz); err == nil && p.SrcChain == c.name && p.DstChain == dst {
+			cand = append(cand, ent)
+		}
+	}
+	if len(cand) == 0 {
+		e.stat("ack_tss.skipped_no_packet")
+		return
+	}
+	ent := cand[((op.Pkt%len(cand))+len(cand))%len(cand)]
+	p, _ := realDecode(ent.bz)
+	s0 := e.accs[0].String()
+	var abz []byte
+	switch op.Variant {
+	case "err":
+		a := packettypes.NewAcknowledgement(1, []byte{}, "destination execution failed", s0, p.FeeOption)
+		abz, _ = a.ABIPack()
+	case "garbage":
+		abz = e.garbage(opIdx, 96+opIdx%100)
+	case "zero":
+		a := packettypes.NewAcknowledgement(0, []byte{}, "", "", 0)
+		abz, _ = a.ABIPack()
+	case "badrelayer":
+		a := packettypes.NewAcknowledgement(0, []byte{}, "", "teleport1nobodyregisteredthisaddress", p.FeeOption)
+		abz, _ = a.ABIPack()
+	default:
+		a := packettypes.NewAcknowledgement(0, []byte{}, "", s0, p.FeeOption)
+		abz, _ = a.ABIPack()
+	}
+	h := clienttypes.NewHeight(0, 1)
+	if op.Mal == "height0" {
+		h = clienttypes.Height{}
+	}
+	if op.Variant == "emptyack" {
+		abz = []byte{}
+	}
+	e.prepare(c)
+	class := e.runAck(c, op.Relayer, append([]byte{}, ent.bz...), abz, []byte{}, h)
+	e.stat(fmt.Sprintf("ack_tss.%s%s.rel%d.class%d", op.Variant, op.Mal, op.Relayer, class))
 	e.finish(c, op.Commit)
 }
 
